@@ -107,7 +107,7 @@ func init() {
 		Weight: 2,
 		Gen: func(g *Gen) *Scn {
 			sc := &Scn{Family: "C02.safe"}
-			sc.Sub = g.Pick("safe", "default", "serialize")
+			sc.Sub = g.Pick("safe", "default", "serialize", "eventually")
 			ctor := sc.Sub
 			if ctor == "serialize" {
 				ctor = "unsafe"
@@ -115,7 +115,7 @@ func init() {
 			}
 			sc.Sources = []SrcSpec{{Mode: "async", Ctor: ctor, Producers: g.Range(2, 4), Script: genScript(g, 10, 3, "CE--", false)}}
 			if g.Bool(0.5) {
-				sc.Stages = append(sc.Stages, StageSpec{Op: g.Pick("Map", "Tap", "StartWith", "TapOnFinalize", "Scan", "TakeLast"), P: []int{1}})
+				sc.Stages = append(sc.Stages, StageSpec{Op: g.Pick("Map", "Tap", "StartWith", "TapOnFinalize", "TapOnSubscribe", "Defer", "Catch", "Scan", "TakeLast"), P: []int{1}})
 			}
 			sc.SetInt("raw", g.Intn(2))
 			return sc
@@ -127,7 +127,7 @@ func init() {
 			rec := e.NewRec("o")
 			// C08: these constructors serialise by blocking, they never drop: when a producer's Next returns
 			// (no terminal having been issued by anybody yet) its value has been handled by the observer
-			identity := true
+			identity := sc.Sub != "eventually" // the eventually-safe constructor serialises by dropping
 			for _, st := range sc.Stages {
 				switch st.Op {
 				case "Serialize", "Tap", "StartWith", "TapOnFinalize":
@@ -170,7 +170,8 @@ func init() {
 			sc.Sub = subjectKinds[g.Intn(len(subjectKinds))]
 			sc.SetInt("buf", g.Range(1, 3))
 			sc.SetInt("observers", g.Range(1, 2))
-			sc.Sources = []SrcSpec{{Mode: "hot", Producers: g.Range(2, 4), Script: genScript(g, 10, 3, "CE--", false)}}
+			sc.SetInt("late", g.Intn(2))
+			sc.Sources = []SrcSpec{{Mode: "hot", Producers: g.Range(1, 4), Script: genScript(g, 10, 3, "CE--", false)}}
 			if g.Bool(0.4) {
 				sc.Stages = append(sc.Stages, StageSpec{Op: g.Pick("Map", "StartWith", "TapOnFinalize", "Tap"), P: []int{1}})
 			}
@@ -194,6 +195,17 @@ func init() {
 			}
 			e.Settle()
 			s.Feed()
+			if sc.Int("late", 0) == 1 && sc.Sub != "unicast" {
+				// one more observer arrives while the producers are emitting: the replay it gets and the
+				// live values must not overlap in its callbacks either
+				o := e.BuildChain(s.Obs(), sc.Stages, func(i int) ro.Observable[int] { return ro.Empty[int]() })
+				rec := e.NewRec("late")
+				recs = append(recs, rec)
+				e.Go("late-subscriber", func() {
+					e.Yield()
+					o.Subscribe(rec.Obs())
+				})
+			}
 			e.SettleFor(100 * Unit)
 			for _, r := range recs {
 				checkNoOverlap(e, r)
